@@ -67,7 +67,7 @@ type c08Scenario struct {
 	K        int
 	dialled  bool
 	pattern  int // 0 burst, 1 one byte at a time, 2 interleaved across connections
-	handler  int // 0 instantaneous, 1 virtual sleep, 2 block until released
+	handler  int // 0 instantaneous, 1 virtual sleep, 2 block until released, 3 the first handler of EVERY connection blocks until released
 	perConn  []int
 	holdConn int
 	holdSeq  uint32
@@ -134,6 +134,10 @@ func runC08(c *ev.Case, ctx *lib.Ctx, sc c08Scenario) {
 				held <- struct{}{}
 				<-release
 			}
+		case 3:
+			if seq == 1 {
+				<-release
+			}
 		}
 		mons[i].leave()
 	})
@@ -148,7 +152,7 @@ func runC08(c *ev.Case, ctx *lib.Ctx, sc c08Scenario) {
 	}
 	for i := range conns {
 		conns[i] = memnet.NewConn()
-		conns[i].Remote = memnet.Addr{Net: "tcp", Str: fmt.Sprintf("10.0.0.%d:1000", i+1)}
+		conns[i].Remote = memnet.Addr{Net: "tcp", Str: fmt.Sprintf("10.0.%d.%d:1000", (i+1)/250, (i+1)%250)}
 		byAddr[conns[i].Remote.String()] = i
 		mons[i] = &connMonitor{}
 	}
@@ -299,6 +303,22 @@ func runC08(c *ev.Case, ctx *lib.Ctx, sc c08Scenario) {
 			c.Fail(sig("registration-blocked"), nil, nil, "a handler registration started while a handler was blocked has not returned after the handler was released (%+v)", sc)
 			fail = true
 		}
+	} else if sc.handler == 3 {
+		// every connection's first handler blocks: each of them must have been started
+		// (no server-wide bound on the handlers running at one time)
+		started := 0
+		for i := range conns {
+			if mons[i].count() == 1 {
+				started++
+			}
+		}
+		if started != sc.K {
+			c.Fail(sig("other-connection-delayed"), nil, nil, "%d connections whose first handler blocks: only %d of the handlers had been started at quiescence (%+v)", sc.K, started, c08Short(sc))
+			fail = true
+		}
+		c.Event("blocked_handler_scenarios", 1)
+		close(release)
+		synctest.Wait()
 	} else if sc.handler == 1 {
 		time.Sleep(time.Second) // virtual: lets every sleeping handler finish
 		synctest.Wait()
@@ -424,6 +444,15 @@ func runC08SCTP(c *ev.Case, ctx *lib.Ctx, sc c08Scenario, h diam.Handler, mons [
 	c.Event("sctp_scenarios", 1)
 }
 
+// c08Short: the scenario without the per-connection message counts (long for many connections)
+func c08Short(sc c08Scenario) string {
+	n := sc.perConn
+	if len(n) > 8 {
+		n = n[:8]
+	}
+	return fmt.Sprintf("K=%d dialled=%v handler=%d mux=%v perConn=%v...", sc.K, sc.dialled, sc.handler, sc.mux, n)
+}
+
 func TestC08(t *testing.T) {
 	rec := ev.Open(t, "C08")
 	defer rec.Close()
@@ -460,6 +489,14 @@ func TestC08(t *testing.T) {
 			if sc.pattern == 1 {
 				sc.pattern = 0
 			}
+		}
+		if c.I%25 == 9 || c.I%25 == 18 {
+			// many connections whose handlers all block at the same time
+			sc = c08Scenario{K: []int{129, 130, 257, 600, 1030}[r.IntN(5)], dialled: r.IntN(4) == 0, handler: 3, mux: r.IntN(2) == 0}
+			for i := 0; i < sc.K; i++ {
+				sc.perConn = append(sc.perConn, 1+r.IntN(3))
+			}
+			long = false
 		}
 		c.Class("K=%d/dialled=%v/pattern=%d/handler=%d/mux=%v/long=%v/prelude=%d/sctp=%v", sc.K, sc.dialled, sc.pattern, sc.handler, sc.mux, long, sc.prelude, sc.sctp)
 		if sc.regWhileHeld {
